@@ -407,7 +407,7 @@ META = {
     'technique': 'static provenance / who-may-write analysis over type-checked MIR (custom rustc driver)',
     'text': 'Decides, for every path of the real build, the structural pairing clauses that make response routing correct: single atomic id source shared by clones; '
             'wire id = table key = stored sender of one dequeued request; response completes the entry keyed by its own id; completing removal keyed by parameter with an '
-            'effect-free miss path; all other completion writers are Err-only. These are necessary conditions visible in the code shape; the dynamic behaviour of '
+            'effect-free miss path; all other completion writers are Err-only. The id counter only ever advances: no integer atomic of the client is written other than by fetch_add, so an id once drawn is never handed out again. These are necessary conditions visible in the code shape; the dynamic behaviour of '
             'HashMap/oneshot is trusted, so this is a sound argument for mis-routing bugs introduced in tarpc code, not a run-time proof.',
     'note': 'Trusted: rustc MIR construction, std HashMap, tokio oneshot/mpsc semantics. Not decided: id uniqueness across usize wrap-around.',
 }
